@@ -7,9 +7,9 @@ for n in $seeds; do
   d=/verif/seeded/$n; pkg=$(jq -r .demo_package_dir $d/meta.json)
   wt=/tmp/valwt_$n; git -C /repo worktree remove --force $wt 2>/dev/null; git -C /repo worktree add -q --detach $wt HEAD || continue
   cp $d/zz_seed_demo_test.go $wt/$pkg/
-  (cd $wt && go test -vet=off -count=1 -run SeedDemo ./$pkg > $d/demo_unchanged.log 2>&1); d0=$?
+  (cd $wt && go test -vet=off -count=1 -run Seed ./$pkg > $d/demo_unchanged.log 2>&1); d0=$?
   (cd $wt && git apply $d/patch.diff && go build ./... > /dev/null 2>&1); b=$?
-  (cd $wt && go test -vet=off -count=1 -run SeedDemo ./$pkg > $d/demo_patched.log 2>&1); d1=$?
+  (cd $wt && go test -vet=off -count=1 -run Seed ./$pkg > $d/demo_patched.log 2>&1); d1=$?
   echo "$n: demo_unchanged_exit=$d0 build_with_patch_exit=$b demo_patched_exit=$d1"
   git -C /repo worktree remove --force $wt
 done
